@@ -44,6 +44,8 @@ CORPUS = [
     # C13-f: postprocess_text_nodes reads the decoded text (witnesses of Props/C13.v: C13_postprocess_*_refuted)
     ("autolink", {}, "a&#64;b.co"), ("autolink", {}, "x&commat;y.zz foo"), ("tasklist", {}, "- &#91;x] a"), ("tasklist", {}, "- &#x5B;x&#93; a"),
     ("relaxed_tasklist_matching", {"tasklist": True}, "- &lsqb;~] a"),
+    # the witnesses of Props/C13.v C13_parse_refuted (whole parser model; same class C13-f)
+    ("relaxed_tasklist_matching", {"tasklist": True}, "- &#91;~] a"), ("relaxed_autolinks", {"autolink": True}, "&#91;a&#64;b.co"),
 ]
 
 
@@ -188,7 +190,9 @@ def classify(F, doc, base, vh):
                     return "link_child_of_link"
             except Exception:
                 pass
-        return None
+        # C13-f for this switch: the e-mail matcher's bracket-depth test (skipped under relaxed_autolinks) also runs on
+        # decoded text -- witness of Props/C13.v C13_parse_refuted: `&#91;a&#64;b.co` under autolink
+        return "postprocess_decoded_trigger" if RE_REF_AT.search(doc) else None
     if F == "description_lists" and RE_TILDE_ITEM.search(doc):
         return "description_item_tilde"
     if F == "spoiler" and doc.count("|") >= 2:
@@ -257,10 +261,19 @@ def main(tier):
     # the inline dispatcher: the model of parse_inline (Model/Inlines.v) reads the generated special-character
     # table; its tie to the compiled parser makes "a byte outside the table is literal text" a fact about the code
     from checks import layerc
-    layerc.inlines(c, tier, 0.25 if tier == "quick" else 0.1, profile=profile)
+    import time as _time
+    _t0 = _time.time()
+    layerc.inlines(c, tier, 0.2 if tier == "quick" else 0.1, profile=profile)
+    _t1 = _time.time()
     # the block openers: Props/C13.v states their inertness about Model/Blocks.v (parse_blocks); the tie makes it a
     # statement about the compiled block parser
-    layerc.blocks(c, tier, 0.1)
+    layerc.blocks(c, tier, 0.08 if tier == "quick" else 0.1)
+    _t2 = _time.time()
+    # the whole parser as one function: the composition theorems of Props/C13.v (C13_parse_*, C13_html_*) are about
+    # Model/Parse.v parse_document_model; its end-to-end tie to the compiled parse_document makes them statements about the
+    # code (the theorems of Props/Parse.v themselves are obligations of PARSE_TIE / C04 / C08, not repeated here)
+    layerc.whole(c, tier, 0.1 if tier == "quick" else 0.05, proofs=False, profile=profile)
+    c.cov["tie_wall_s"] = {"inlines": round(_t1 - _t0, 1), "blocks": round(_t2 - _t1, 1), "whole": round(_time.time() - _t2, 1)}
 
     # ------------------------------------------------------------------ the specification's features and triggers
     feats = [unhx(x).decode() for x in vlib.run_one(drv, "c13_features").split()[1:]]
@@ -440,7 +453,9 @@ def main(tier):
         c.cov["samples"].append({"feature": F, "doc": d, "base": docgen.opts_token(b)})
     c.cov["input_distribution"] = {"exhaustive_documents": n_exh, "bases_exhaustive": list(BASES), "grammar_documents_per_feature": nper, "corpus": ncorpus,
                                    "grammar_constructs": docgen.feature_counts("\n".join(d for _, d, _ in cases[:3000]))}
-    c.cov["partial_clauses"] = ["C13_full_statement (whole-parser inertness) is not proved: no Coq model of the block parser or of the handle_* functions; it is searched on the implementation only",
+    c.cov["partial_clauses"] = ["C13_full_statement (byte-identical HTML under the specification's free_of, trigger STRINGS) is not proved; it is what the search evaluates on the implementation. Proved on the whole parser model (Props/C13.v C13_parse_inert, hypothesis free_of_heads = none of the first bytes of the trigger strings): strikethrough, subscript, superscript, underline, math_dollars, math_code, both wikilinks switches, smart (equality of the two runs, C13_parse_inert clause 1), alerts, multiline_block_quotes, table (whenever the run with the feature succeeds, the run without gives the same tree), description_lists only with the tilde excluded as well; tagfilter / header_ids only at the parser (it has no such switch); HTML corollary for a renderer record held fixed (C13_html_inert)",
+                                "refuted on the whole parser model (C13_parse_refuted): greentext (C13-a), description_lists with the colon only (C13-b), autolink, tasklist, relaxed_tasklist_matching, relaxed_autolinks (C13-f)",
+                                "open on the whole parser model: footnotes (the footnote pass on a tree without references is not shown to be the identity: no `no FootnoteReference` invariant of the inline parser), spoiler (block phase: table.rs row reads the switch) and front_matter_delimiter (block phase); the block theorems are in the okle form (equality when the run with the feature panics is not proved); tagfilter / header_ids / relaxed_autolinks are read by the HTML renderer itself: not covered by the HTML corollary",
                                 "find_special_char inertness under free_of fails at the scan level for autolink (w), spoiler (single bar) and smart (single hyphen / full stop): C13_find_special_free_refuted_*; the text nodes are merged later (not modelled)",
                                 "known classes C13-a (greentext switches lazy continuation off), C13-b (description item introduced by a tilde), C13-c (spoiler pairs single bars), C13-d (escaped caret still opens a footnote reference), C13-e (relaxed_autolinks drops the start tag of a link nested directly in a link) are excluded from the search verdict"]
     c.assumptions = ["Gen/Special.v and Gen/AuditOptions.v are regenerated from src/parser/*.rs and src/html.rs on every run; the find_special_char loop is compared verbatim with the loop Model/Special.v transcribes",
